@@ -102,15 +102,16 @@ def _call(packed):
 class Pool:
     """Thin wrapper: tasks are (module, function, arg) so that spawn-ed workers can import them."""
 
-    def __init__(self, n=None):
+    def __init__(self, n=None, maxtasks=None):
         self.n = n or nproc()
         self.pool = None
+        self.maxtasks = maxtasks  # recycle a worker after this many tasks (XLA keeps every compiled program alive)
 
     def __enter__(self):
         if self.n > 1:
             ctx = mp.get_context("spawn")
             env = {k: v for k, v in os.environ.items() if k.startswith(("VERIF_", "JAX_", "XLA_", "PYTHONHASHSEED", GUARD))}
-            self.pool = ctx.Pool(self.n, initializer=_worker_init, initargs=(env,), maxtasksperchild=None)
+            self.pool = ctx.Pool(self.n, initializer=_worker_init, initargs=(env,), maxtasksperchild=self.maxtasks)
         return self
 
     def __exit__(self, *a):
